@@ -140,6 +140,11 @@ class SrcGen:
     def cond(self, depth):
         """a condition: not a bare parenthesised lambda / composite literal (the printer strips the parentheses
         of a control clause: deterministic witnesses in DET_SOURCES)"""
+        if self.r.below(5) == 0:
+            # a parenthesised condition holding a composite literal of a named type (the printer strips the parentheses of a
+            # control clause unless such a literal would be exposed); untyped {...} literals: deterministic family, listed
+            return "(" + self.pick(["T{}.ok()", "P{1}.get() < %s" % self.pick(NAMES), "f(T{}) > 0", "!T{a: 1}.ok()", "x == T{}", "T{}.m().n()",
+                                    "pkg.T{}.ok() && " + self.pick(NAMES), "(T{}).ok()", "a[T{}.i] > 0"]) + ")"
         return self.expr(1, 1, depth) + " " + self.pick(["==", "!=", "<", ">"]) + " " + self.expr(1, 4, depth)
 
     def blank(self):
@@ -153,6 +158,10 @@ class SrcGen:
                 pre = self.pick(["", ind])
                 text = self.pick(["", "\t", " * "])
                 first = self.pick(["/*", "/* head"])
+                if self.r.below(2):
+                    # text lines with different indentation (usage-style), the whole comment uniformly prefixed
+                    inds = ["", "    ", "\t", "\t\t"]
+                    return pre + first + "\n" + "".join(pre + self.pick(inds) + w + "\n" for w in ("Usage:", "run a b", "run c")) + pre + "*/\n"
                 return pre + first + "\n" + pre + text + "aaa\n" + pre + text + "bbb\n" + pre + (" */" if text == " * " else "*/") + "\n"
             return ind + self.pick(["// note", "/* block */", "// TODO: x", "//go:noinline"]) + "\n"
         return ""
@@ -195,6 +204,11 @@ class SrcGen:
                 n = self.pick([20, 60, 95, 99, 100, 101, 105, 160])
                 # (after a blank line: directly under a line with a trailing comment the alignment of that comment is not
                 #  idempotent when the literal's body is only a long comment - deterministic witness in DET_SOURCES)
+                if self.r.below(2):
+                    # a one-line literal around the 100-column one-liner limit, hand-aligned with surplus blanks
+                    w = 88 + self.r.below(24)
+                    sp = " " * self.r.below(6)
+                    return "\n" + t + "%s %s:= %s func(first int, second int) int { return first*second + %s }\n" % (self.pick(NAMES), sp, sp, "1" * (w - 60))
                 return "\n" + t + "%s := func() { %s%s }\n" % (self.pick(NAMES), self.pick(["", "y() ", "/* a */ y(); "]), _com(n))
             return t + "%s++\n" % self.pick(NAMES)
         if k == 11 and d > 0:
@@ -233,6 +247,11 @@ DET_SOURCES = [
     b"println ${/*C*/name}\n", b"m.Foo/*C*/()\n", b"C.printf /*C*/ c\"x\"\n", b"/*C*/ echo a\necho b\n", b"a := 4/ /*C*/5r\n",
     b"x = fmt.sprint(obj.m( nil,\n\t),\n)\n",
     b"a = 3.5 // eol\nfoo := func() { /*c0 long comment text long comment text long comment text long comment text long comment text long com*/ }\n",
+    # control characters inside comments (a form feed in a /*-comment makes the printer drop the following line break)
+    b"x := 1 /*\f*/\ny := 2\n", b"x := 1 //\f\ny := 2\n", b"x := 1 # a\fb\ny := 2\n", b"x := 1 /*\v*/\ny := 2\n", b"/*\f*/\nx := 1\n",
+    b"import \"fmt\" /*\f*/\n\nfmt.println 1\n", b"func f() {\n\tx := 1 /*\f*/\n\ty := 2\n}\n", b"func f() {\n\t/*\f*/\n\ty := 2\n}\n",
+    b"x := 1 /* a\fb */\ny := 2\n", b"// a\fb\nx := 1\n", b"x := [1, /*\f*/ 2]\ny := 2\n", b"x := 1 //\v\ny := 2\n", b"x := 1 /*\r*/\ny := 2\n",
+    b"x := 1 /* \x01 */\ny := 2\n", b"x := 1 /*\f*/ + 2\ny := 2\n", b"if x /*\f*/ {\n}\n",
     b"#!/usr/bin/env xgo\nprintln 1\n", b"# sharp comment\nprintln 1 # trailing\n", b"#\nprintln 1\n",
 ]
 
@@ -304,7 +323,8 @@ def run_property(ctx, field, good, what):
                    "across the printer's 30/40/100 limits in one-line bodies, blocks, literals, struct/interface types) + the %d XGo/class files of the repository + a comment (\"/*C*/\" and \"//C\\n\") inserted "
                    "before EVERY token of the %d files <= %d bytes under printer/_testdata, parser/_testdata, demo (%d sources, %d of them parse; a variant that "
                    "does not parse makes no claim); seeded: %d generated sources with layout perturbations (%d parse); generator does not produce: a bare "
-                   "parenthesised lambda as if/for/switch condition, comments inside expressions (both are in the deterministic set); non-trivial = distinct "
+                   "parenthesised lambda as if/for/switch condition, comments inside expressions, control characters (\\f, \\v, ...) inside comments "
+                   "(all three are in the deterministic set); non-trivial = distinct "
                    "source that parses; failing deterministic sources: %d" % (ndet, ncorp, len(files), SMALL_LIMIT_QUICK if ctx.quick else SMALL_LIMIT_THOROUGH,
                                                                         len(res), nvalid, len(sres), svalid, nfail),
               result_histogram=hist, deterministic_sources=len(res), deterministic_valid=nvalid, seeded_sources=len(sres), seeded_valid=svalid,
@@ -467,5 +487,66 @@ def family_comment_sizes():
     return [(False, s.encode()) for s in out]
 
 
+def family_control_clause():
+    """parenthesised conditions / tags / range operands whose parentheses the printer may strip (stripParens): composite
+    literals of a named type in every position of the expression - callee, argument, selector base, index, operand."""
+    exprs = ["T{}.ok()", "T{}.f", "x == T{}", "f(T{})", "T{}.m().n()", "P{1}.get() < 2", "!T{}.ok()", "T{a: 1}.x > 0", "pkg.T{}.ok()",
+             "(T{}).ok()", "a[T{}.i]", "m[T{}]", "f(T{}).g(U{})", "T{}.ok() && b", "b && T{}.ok()", "f(x) && g(T{}.y)", "<-T{}.ch", "-T{}.n",
+             "T{}.a.b.c()", "T{}.m(U{})", "f(T{})(U{})", "T{}.f[0]", "T{}.s[1:2]", "x.(T) == T{}", "[]T{}.len()", "[1, 2].len() > 0",
+             "{\"a\": 1}.len() > 0", "map[string]T{}.len() > 0", "T{}.ok()!", "T{}.get()?:0 > 1", "(x => T{}.v(x))(1) > 0", "f(=> T{})",
+             "S{}.size()", "struct{}{} == x", "a", "a + b", "f()", "(a)", "a.b.c"]
+    out = []
+    for e in exprs:
+        e = e.replace("\\\"", '"')
+        out += ["x := 1\nif (%s) {\n\ty()\n}\n" % e,
+                "x := 1\nif v := 1; (%s) {\n\ty()\n}\n" % e,
+                "x := 1\nfor (%s) {\n\ty()\n}\n" % e,
+                "x := 1\nfor i := 0; (%s); i++ {\n\ty()\n}\n" % e,
+                "x := 1\nswitch (%s) {\ncase 1:\n\ty()\n}\n" % e,
+                "x := 1\nfor v <- (%s) {\n\ty()\n}\n" % e,
+                "x := 1\nfor v := range (%s) {\n\ty()\n}\n" % e,
+                "func f() {\n\tif (%s) {\n\t\ty()\n\t} else if (%s) {\n\t\tz()\n\t}\n}\n" % (e, e),
+                "x := [v for v <- xs if (%s)]\n" % e,
+                "x := 1\nif ((%s)) {\n\ty()\n}\n" % e]
+    return [(False, s.encode()) for s in out]
+
+
+def family_funclit_width():
+    """one-line function literals whose header + body size runs across the 100-column one-liner limit, written with 0..6 surplus
+    blanks in front of "func" (hand-aligned source), in assignment, declaration, call-argument and nested positions."""
+    out = []
+    for width in range(88, 112):
+        digits = "1" * max(1, width - 60)
+        lit = "func(first int, second int) int { return first*second + %s }" % digits
+        for blanks in (0, 1, 2, 4, 7):
+            sp = " " * blanks
+            out += ["handler %s:= %s %s\n" % (sp, sp, lit),
+                    "var handler %s= %s %s\n" % (sp, sp, lit),
+                    "register(1, %s %s)\n" % (sp, lit),
+                    "func g() {\n\thandler %s= %s %s\n}\n" % (sp, sp, lit),
+                    "x := 1\nif x > 0 {\n\tif x > 1 {\n\t\th %s:= %s %s\n\t}\n}\n" % (sp, sp, lit),
+                    "m := {\"k\": %s %s}\n" % (sp, lit)]
+    return [(False, s.encode()) for s in out]
+
+
+def family_comment_text_profiles():
+    """multi-line /*-comments with every indentation profile of three inner lines over {none, 4 blanks, 1 tab, 2 tabs} (plus a
+    blank inner line), first line bare or with text, at top level and inside a function body: what stripCommonPrefix sees."""
+    inds = ["", "    ", "\t", "\t\t"]
+    out = []
+    for first in ("/*", "/* Usage"):
+        for i1 in inds:
+            for i2 in inds:
+                for i3 in inds:
+                    body = "%sUsage:\n%srun a b\n%srun c\n" % (i1, i2, i3)
+                    out.append("%s\n%s*/\nx := 1\n" % (first, body))
+                    out.append("func f() {\n\t%s\n%s\t*/\n\ty()\n}\n" % (first, "".join("\t" + l + "\n" for l in body.split("\n")[:-1])))
+        out.append("%s\nUsage:\n\n    run a b\n    run c\n*/\nx := 1\n" % first)
+        out.append("%s\nUsage:\n    run a b\n\nEnd\n*/\nx := 1\n" % first)
+        out.append("%s\n\tUsage:\n\t    run a b\n\t    run c\n*/\nx := 1\n" % first)
+    return [(False, s.encode()) for s in out]
+
+
 def families():
-    return family_adjacency() + family_comment_layout() + family_comment_sizes()
+    return (family_adjacency() + family_comment_layout() + family_comment_sizes() + family_control_clause() +
+            family_funclit_width() + family_comment_text_profiles())
